@@ -42,17 +42,21 @@ func c17(c *Ctx) {
 	c.Rep.TieObs = []string{"O-proxy: the editor notification log (PublishDiagnostics, ShowMessage) of the real proxy.Server + proxy.Client"}
 	c.Rep.Rule = "interleavings of buffer changes (alternating valid and invalid contents) on the editor connection with diagnostic publications of the downstream server (ranges inside mapped text on one line, across lines, and in boilerplate) and ShowMessage calls; exhaustive up to a length bound, random beyond, every second history also with the publications that follow a change delivered from the downstream connection before the proxy's didChange returns, plus pairs delivered from two goroutines in a -race build; oracle on every notification: template URI only, mapped ranges moved to the template position, the compiler's own error present (at the compiler's line/column, 0-based) exactly while the buffer fails to compile; distinct = distinct history; non-trivial = history with a publication while the buffer is invalid"
 	u := "file:///w/a.goht"
-	valid := "package x\n\n@goht T(s string, n int) {\n\t%p= s\n\t%a{href: #{s},\n\t\tn ? #{n > 1}} t\n}\n"
+	// (no package clause, Go code on the first line: the very first character of the template, 0:0, is mapped text)
+	valid := "var greeting = \"hi\"\n\n@goht T(s string, n int) {\n\t%p= s\n\t%a{href: #{s},\n\t\tn ? #{n > 1}} t\n}\n"
 	invalid := []string{"package x\n\n@goht T(s string, n int) {\n\t%p= s\n\t\t\t%b too deep\n}\n", "package x\n\n@goht T(s string, n int) {\n\t%p= s\n", "package x\n\n@goht T(s string, n int) {\n\t%p= s\n\t:nosuch\n\t\tx\n}\n",
 		// errors the compiler raises at the root of the file (it reports them at line 0, column 0)
 		"package\n", "package x\n\nimport (\n\t\"fmt\"\n"}
 	// a second buffer that compiles: the same expressions two lines further down and one level deeper, so that a
 	// publication translated with the map of the previous buffer lands somewhere else
 	valid2 := "package x\n\n@goht T(s string, n int) {\n\t%hr\n\t%div\n\t\t%p= s\n\t\t%a{href: #{s},\n\t\t\tn ? #{n > 1}} t\n}\n"
-	texts := append([]string{valid, valid2}, invalid...)
+	// a third one whose generated code is byte for byte that of the first, with the template text one and two lines
+	// further down (a blank line and a `-#` comment): only the position map differs
+	valid3 := strings.Replace(valid, "\t%p= s\n", "\n\t-# note\n\t%p= s\n", 1)
+	texts := append([]string{valid, valid2, valid3}, invalid...)
 	real := c.composeReal(texts)
 	tv := tablesOf(real[valid])
-	tabs := map[string]tables{valid: tv, valid2: tablesOf(real[valid2])}
+	tabs := map[string]tables{valid: tv, valid2: tablesOf(real[valid2]), valid3: tablesOf(real[valid3])}
 	// diagnostics the downstream may publish for the generated file of `valid`
 	var mappedKeys [][2]int
 	for k := range tv.t2s {
@@ -389,11 +393,27 @@ func c20(c *Ctx) {
 	for ci, cs := range cases {
 		// each case twice: the buffer as opened; the buffer reached by a full-text change from ANOTHER layout (more,
 		// fewer or differently placed import lines): the edit must be computed on the current text
-		for via := 0; via < 4; via++ {
+		for via := 0; via < 8; via++ {
 			lay, pk := cs.lay, cs.pk
 			body := body
 			bodyOff := 3
-			if via >= 2 {
+			if via >= 6 {
+				// … and indented text lines of the template that start with the word import (no Go declaration between
+				// the imports and the template)
+				body = []string{"@goht T(s string) {", "\t%p= s", "\t%pre", "\t\timport \"example.com/widgets\"", "\t%p", "\t\timport the package.", "}", "", "var _ = 1", ""}
+				bodyOff = 1
+				if cs.pk.want != pkgs[0].want {
+					continue
+				}
+			} else if via >= 4 {
+				// the template shows Go source as text: a line of the template body that starts in column one with
+				// the word import (after a Go declaration, where the search for the import section has long ended)
+				body = []string{"var _ = 1", "", "@goht T(s string) {", "\t%p= s", "\t%pre", "\t\tpackage main", "import \"example.com/widgets\"", "\t%p done", "}", ""}
+				bodyOff = 3
+				if cs.pk.want != pkgs[0].want {
+					continue
+				}
+			} else if via >= 2 {
 				// the template declares its parameters on lines of their own: a `)` at the start of a line that is not
 				// the end of an import group
 				// (and no Go declaration between the imports and the template)
